@@ -179,6 +179,32 @@ example : (resolveLocksForRange (fun _ => [[0x6d]]) (fun _ => [[0x6d]]) (fun i _
 example : Sorted [⟨[0x61], 5, false⟩, ⟨[0x62], 5, false⟩, ⟨[0x63], 11, false⟩, ⟨[0x64], 7, false⟩, ⟨[0x7a], 5, true⟩] := by
   unfold Sorted; decide
 
+/-- The resolve-locks phase of GC over the whole key space (`RunOnRange("", "")`, sub-ranges handled one after
+    the other): afterwards NO lock with start ts ≤ safe point remains anywhere, and every lock above the safe point
+    is still there — for every population, scan limit ≥ 1, layouts (also changing), regionsPerTask and re-scans.
+    (What the resolved locks turn into — commit or rollback — is `gc_preserves_outcomes`, deferred to the MVCC hub.) -/
+theorem gc_clears_all_le_safepoint (rlayouts : Nat → Layout) (rpt rfuel : Nat) (tasks : List Task)
+    (layouts rl : Nat → Nat → Layout) (retry : Nat → Nat → Bytes → List Lock → Bool) (sp limit fuel : Nat)
+    (pop pop' : List Lock) (_hlim : 1 ≤ limit) (hsorted : Sorted pop) (hkeys : ∀ l ∈ pop, l.key ≠ [])
+    (htasks : runOnRange rlayouts rpt rfuel [] [] = some tasks)
+    (hrun : gcResolveAll layouts rl retry sp limit fuel 0 tasks pop = some pop') :
+    (∀ l ∈ pop', sp < l.ts) ∧ (∀ l ∈ pop, sp < l.ts → l ∈ pop') ∧ (∀ l ∈ pop', l ∈ pop) := by
+  obtain ⟨h1, h2, h3⟩ := gcResolveAll_spec layouts rl retry sp limit fuel tasks 0 pop pop' hsorted hkeys hrun
+  refine ⟨?_, h2, h1⟩
+  intro l hl
+  apply Classical.byContradiction
+  intro hn
+  have hc : IsChain [] [] tasks := by
+    rcases runOnRange_chain htasks with ⟨he, _⟩ | ⟨_, hc⟩
+    · simp [emptyRange] at he
+    · exact hc
+  obtain ⟨t, ht, hr⟩ := (hc.cover l.key).mpr ⟨nil_le _, .inl rfl⟩
+  exact h3 t ht l hl ⟨Nat.le_of_not_lt hn, hr⟩
+
+example : gcResolveAll (fun _ _ => [[0x6d]]) (fun _ _ => [[0x6d]]) (fun _ _ _ _ => false) 10 1 20 0
+    [⟨[], [0x6d]⟩, ⟨[0x6d], []⟩] [⟨[0x61], 5, false⟩, ⟨[0x62], 11, false⟩, ⟨[0x7a], 5, true⟩] =
+    some [⟨[0x62], 11, false⟩] := by decide
+
 /-- CheckVisibility: with a fresh cache a read below the cached txn safe point is refused with aborted-by-GC
     and nothing is served; a read at the safe point or above is served. A stale cache serves nothing. -/
 theorem below_safepoint_refused {α : Type} (fresh : Bool) (sp ts : Nat) (v : α) :
